@@ -234,7 +234,16 @@ func Gen(t *rapid.T, o Opts) Layout {
 		}
 	}
 	if o.AllowText && rapid.IntRange(0, 2).Draw(t, "text") == 0 {
+		// the text track runs on a millisecond timescale: only when every video boundary is a whole number of ms
+		// (otherwise its own, rounded, boundaries are breakpoints of their own)
 		l.Text = true
+		acc := 0
+		for _, f := range l.VSegFrames {
+			acc += f * l.VFrameDur
+			if acc*1000%l.VTimescale != 0 {
+				l.Text = false
+			}
+		}
 	}
 	if o.AllowThumb && l.Uniform() && rapid.IntRange(0, 2).Draw(t, "thumbs") == 0 {
 		l.Thumbs = true
